@@ -10,16 +10,22 @@ fn half_1e10() -> Q {
     Q::new(6.into(), num_bigint::BigInt::from(10u32).pow(11))
 }
 
-pub fn oracle(l: &[GTx], r: &RRep, ex: &[(u16, Decimal)]) -> Option<String> {
+/// a line with its amounts already in GBP, exactly
+pub struct QTx { pub date: chrono::NaiveDate, pub ticker: String, pub kind: Kind, pub a: Q, pub b: Q, pub c: Q }
+pub fn qtxs(l: &[GTx]) -> Vec<QTx> { l.iter().map(|t| QTx { date: t.date, ticker: t.ticker.clone(), kind: t.kind, a: Q::from_dec(t.a), b: Q::from_dec(t.b), c: Q::from_dec(t.c) }).collect() }
+
+pub fn oracle(l: &[GTx], r: &RRep, ex: &[(u16, Decimal)]) -> Option<String> { oracle_q(&qtxs(l), r, ex) }
+
+pub fn oracle_q(l: &[QTx], r: &RRep, ex: &[(u16, Decimal)]) -> Option<String> {
     let eps = half_1e10(); // the code stores the two proceeds totals rounded to 10 dp
     for y in &r.years {
         let mut gain = Q::zero();
         let mut loss = Q::zero();
         for d in &y.disposals {
-            let sells: Vec<&GTx> = l.iter().filter(|t| t.kind == Kind::Sell && t.ticker == d.ticker && t.date == d.date).collect();
-            let gross = Q::sum(sells.iter().map(|t| Q::from_dec(t.a).mul(&Q::from_dec(t.b))).collect::<Vec<_>>().iter());
-            let fees = Q::sum(sells.iter().map(|t| Q::from_dec(t.c)).collect::<Vec<_>>().iter());
-            let qty = Q::sum(sells.iter().map(|t| Q::from_dec(t.a)).collect::<Vec<_>>().iter());
+            let sells: Vec<&QTx> = l.iter().filter(|t| t.kind == Kind::Sell && t.ticker == d.ticker && t.date == d.date).collect();
+            let gross = Q::sum(sells.iter().map(|t| t.a.mul(&t.b)).collect::<Vec<_>>().iter());
+            let fees = Q::sum(sells.iter().map(|t| t.c.clone()).collect::<Vec<_>>().iter());
+            let qty = Q::sum(sells.iter().map(|t| t.a.clone()).collect::<Vec<_>>().iter());
             let c = format!("{} {}", d.date, d.ticker);
             if eps.lt(&d.gross.sub(&gross).abs()) && !d.gross.close(&gross, 15) {
                 return Some(format!("{c}: gross proceeds {} but quantity × price of the day's sales is {}", d.gross.approx(), gross.approx()));
@@ -58,7 +64,7 @@ pub fn oracle(l: &[GTx], r: &RRep, ex: &[(u16, Decimal)]) -> Option<String> {
             let (yy, mm, dd) = (chrono::Datelike::year(&t.date) as i64, chrono::Datelike::month(&t.date), chrono::Datelike::day(&t.date));
             let own = if (mm, dd) < (4, 6) { yy - 1 } else { yy };
             if ty.is_some() && ty != Some(own) { return Some(format!("dividend {}: tax year {:?} vs 6-April rule {}", t.date, ty, own)); }
-            if own == y.year { inc = inc.add(&Q::from_dec(t.a)); tax = tax.add(&Q::from_dec(t.b)); }
+            if own == y.year { inc = inc.add(&t.a); tax = tax.add(&t.b); }
         }
         if !inc.close(&y.div_income, 15) { return Some(format!("{c}: dividend income {} but DIVIDEND lines sum to {}", y.div_income.approx(), inc.approx())); }
         if !tax.close(&y.div_tax, 15) { return Some(format!("{c}: dividend tax {} but DIVIDEND lines sum to {}", y.div_tax.approx(), tax.approx())); }
@@ -170,13 +176,55 @@ fn config_overrides(ctx: &mut Ctx) {
     }
 }
 
+/// ledgers whose BUY/SELL prices and fees, and dividend amounts, are in USD/EUR/GBP independently of
+/// each other: the report's figures must be the GBP values (amount ÷ that month's rate of the amount's
+/// own currency) put through the same identities
+fn foreign_currency(ctx: &mut Ctx, cases: &[(String, Ledger)]) {
+    use cgt_core::{Currency, CurrencyAmount, Operation, Transaction};
+    let Ok(cache) = cgt_money::load_default_cache() else { ctx.ev.notes.push("bundled FX cache not loadable: foreign-currency ledgers not exercised".into()); return; };
+    let mut r = crate::rng::Rng::new(ctx.seed ^ 0xC04F);
+    let ex = run_impl::wide_exemptions();
+    let cfg = run_impl::config_from(&ex);
+    let codes = ["GBP", "USD", "EUR"];
+    let n = ctx.n(150, 8000) as usize;
+    for (name, l) in cases.iter().filter(|(_, l)| l.iter().all(|t| chrono::Datelike::year(&t.date) >= 2016 && chrono::Datelike::year(&t.date) <= 2024) && !has_cost_events(l)).take(n) {
+        let curs: Vec<(&str, &str)> = l.iter().map(|_| (*r.pick(&codes), *r.pick(&codes))).collect();
+        let rate = |code: &str, d: chrono::NaiveDate| -> Option<Q> { if code == "GBP" { Some(Q::int(1)) } else { cache.get(Currency::from_code(code)?, chrono::Datelike::year(&d), chrono::Datelike::month(&d)).map(|e| Q::from_dec(e.rate_per_gbp)) } };
+        let mut txs: Vec<Transaction> = Vec::new();
+        let mut ql: Vec<QTx> = Vec::new();
+        let mut ok = true;
+        for (t, (pc, fc)) in l.iter().zip(&curs) {
+            let am = |x: Decimal, c: &str| CurrencyAmount::new(x, Currency::from_code(c).expect("code"));
+            let (Some(rp), Some(rf)) = (rate(pc, t.date), rate(fc, t.date)) else { ok = false; break };
+            let mut tx = t.to_tx();
+            let mut q = QTx { date: t.date, ticker: t.ticker.clone(), kind: t.kind, a: Q::from_dec(t.a), b: Q::from_dec(t.b), c: Q::from_dec(t.c) };
+            match &mut tx.operation {
+                Operation::Buy { price, fees, .. } | Operation::Sell { price, fees, .. } => { *price = am(t.b, pc); *fees = am(t.c, fc); q.b = q.b.div(&rp); q.c = q.c.div(&rf); }
+                Operation::Dividend { total_value, tax_paid } => { *total_value = am(t.a, pc); *tax_paid = am(t.b, fc); q.a = q.a.div(&rp); q.b = q.b.div(&rf); }
+                _ => {}
+            }
+            txs.push(tx); ql.push(q);
+        }
+        if !ok { continue; }
+        ctx.ev.evaluations += 1;
+        ctx.ev.count("foreign-currency-ledgers");
+        if curs.iter().any(|(a, b)| a != b) { ctx.ev.count("foreign-currency-ledgers:price-and-fee-currencies-differ"); }
+        let rep = match std::panic::catch_unwind(std::panic::AssertUnwindSafe(|| cgt_core::calculator::calculate(&txs, None, Some(&cache), &cfg))) { Ok(Ok(r)) => rep::from_report(&r), _ => continue };
+        if let Some(what) = oracle_q(&ql, &rep, &ex) {
+            let lines: Vec<String> = txs.iter().map(cgt_core::dsl::transaction_to_dsl).collect();
+            ctx.ev.violation("oracle", format!("foreign-currency ledger: {what}"), format!("# property C04\n# oracle (amounts converted at the month's rate of each amount's own currency, bundled rates): {what}\n# case {name}\n{}\n", lines.join("\n")));
+        }
+    }
+}
+
 pub fn run(ctx: &mut Ctx) {
     let prop = "C04";
     config_overrides(ctx);
     let cfg = GenCfg::standard();
     let n = ctx.n(500, 30_000);
     let cases = matcher_cases(prop, ctx, &cfg, n);
-    ctx.ev.rule = "corpus + repo fixtures + generated ledgers (gains and losses, several sales per day, dividends, cost events) × exemption configurations (embedded, embedded with overrides, all years); plus override files through the real CLI: random ./config.toml and ~/.config/cgt-tool/config.toml (absent, unparseable, or tables replacing/adding years incl. a non-u16 key) × 9 probe years, exemption of `report --year Y --format json` vs the last-file-wins rule and vs the model's loadWithOverrides. Compared: every field of the report against the model's reportFrom applied to the implementation's own legs (so the matcher is outside this property's projection). Non-trivial = accepted report with ≥ 2 disposals in one tax year, or both a gain and a loss; distinct by ledger text + configuration.".into();
+    ctx.ev.rule = "corpus + repo fixtures + generated ledgers (gains and losses, several sales per day, dividends, cost events) × exemption configurations (embedded, embedded with overrides, all years); plus foreign-currency variants (price, fee and dividend currencies drawn independently from GBP/USD/EUR, bundled monthly rates): the report's figures against the identities on amounts converted at each amount's own currency; plus override files through the real CLI: random ./config.toml and ~/.config/cgt-tool/config.toml (absent, unparseable, or tables replacing/adding years incl. a non-u16 key) × 9 probe years, exemption of `report --year Y --format json` vs the last-file-wins rule and vs the model's loadWithOverrides. Compared: every field of the report against the model's reportFrom applied to the implementation's own legs (so the matcher is outside this property's projection). Non-trivial = accepted report with ≥ 2 disposals in one tax year, or both a gain and a loss; distinct by ledger text + configuration.".into();
+    foreign_currency(ctx, &cases);
     let mut r = crate::rng::Rng::new(ctx.seed ^ 0xC04);
     for (name, l) in cases {
         ctx.ev.evaluations += 1;
